@@ -239,3 +239,83 @@ package queueing
 //@   loop 1: invariant forall j in 0..len(p.stages) :: old(p.stages)[j].Stage < stage || (old(p.stages)[j].Stage == stage && j >= i) || old(p.stages)[j].Stage > maxStage ==> recSame(p, j)
 //@   loop 1: invariant forall j in 0..len(p.stages) :: (stage < old(p.stages)[j].Stage && old(p.stages)[j].Stage <= maxStage) || (old(p.stages)[j].Stage == stage && j < i) ==> recDone(p, j)
 //@   loop 1: invariant advHyp(p) ==> (forall j in 0..len(p.stages) :: (stage < old(p.stages)[j].Stage || (old(p.stages)[j].Stage == stage && j < i)) && old(p.stages)[j].CycleLeft == 0 ==> p.stages[j].Stage == old(p.stages)[j].Stage + 1)
+
+// ---- the sink (interface Sink[T]: arbitrary user code; TRUSTED rely) ----
+// c15Room: hypothesis of the progress clause: the sink answers CanPush() == true whenever asked (never assigned).
+// c15CanPush: the sink currently has room (answer of the last CanPush, forgotten by the next push).
+// c15PushLog[0..c15PushN) = the items pushed so far, in order. The sink does not touch the pipeline's storage.
+//@ ghost var c15Room bool
+//@ ghost var c15CanPush bool
+//@ ghost var c15PushN int
+//@ ghost var c15PushLog map
+
+//@ iface queueing.Sink.CanPush()
+//@   trusted
+//@   ensures (result <==> c15CanPush) && (c15Room ==> result)
+//@   assigns c15CanPush
+//@ iface queueing.Sink.PushTyped(e)
+//@   trusted
+//@   panics !c15CanPush
+//@   ensures c15PushN == old(c15PushN) + 1 && c15PushLog == upd(old(c15PushLog), old(c15PushN), e)
+//@   assigns c15PushN, c15PushLog, c15CanPush
+
+// ---- Tick ----
+// remaining ticks of a record: stages still to traverse + dwell cycles + the tick that emits it
+//@ func remOld(p, j) = (p.numStages - 1 - old(p.stages)[j].Stage) + old(p.stages)[j].CycleLeft + 1
+//@ func remNew(p, k) = (p.numStages - 1 - p.stages[k].Stage) + p.stages[k].CycleLeft + 1
+// record k now == record j on entry
+//@ pred recEq(p, k, j) = p.stages[k].Lane == old(p.stages)[j].Lane && p.stages[k].Stage == old(p.stages)[j].Stage && p.stages[k].CycleLeft == old(p.stages)[j].CycleLeft && p.stages[k].Item == old(p.stages)[j].Item
+// record k now is record j on entry after at most one step: same lane and item; untouched, or dwell counter down by one,
+// or (no dwell left) one stage up
+//@ pred recStepped(p, k, j) = p.stages[k].Lane == old(p.stages)[j].Lane && p.stages[k].Item == old(p.stages)[j].Item && ((p.stages[k].Stage == old(p.stages)[j].Stage && p.stages[k].CycleLeft == old(p.stages)[j].CycleLeft) || (old(p.stages)[j].CycleLeft > 0 && p.stages[k].Stage == old(p.stages)[j].Stage && p.stages[k].CycleLeft == old(p.stages)[j].CycleLeft - 1) || (old(p.stages)[j].CycleLeft == 0 && p.stages[k].CycleLeft == 0 && p.stages[k].Stage == old(p.stages)[j].Stage + 1))
+//@ pred tickProgress(p, em, to) = forall j in 0..old(len(p.stages)) :: (remOld(p, j) == 1 ==> em[j]) && (!em[j] ==> remNew(p, to[j]) == remOld(p, j) - 1)
+
+//@ fn (*Pipeline[T]).Tick
+//@   property C15
+//@   requires pipeWF(p)
+//@   witness em set = gem
+//@   witness lp map = glp
+//@   witness to map = gto
+//@   witness from map = gfrom
+//@   witness src map = gsrc
+//@   label C15.tick.cfg
+//@   ensures p.width == old(p.width) && p.numStages == old(p.numStages)
+//@   label C15.tick.count
+//@   ensures c15PushN >= old(c15PushN) && len(p.stages) + (c15PushN - old(c15PushN)) == old(len(p.stages))
+//@   label C15.tick.emitted
+//@   ensures forall j in 0..old(len(p.stages)) :: em[j] ==> old(c15PushN) <= lp[j] && lp[j] < c15PushN && c15PushLog[lp[j]] == old(p.stages)[j].Item && src[lp[j]] == j && old(p.stages)[j].Stage == p.numStages - 1 && old(p.stages)[j].CycleLeft == 0
+//@   label C15.tick.kept
+//@   ensures forall j in 0..old(len(p.stages)) :: !em[j] ==> 0 <= to[j] && to[j] < len(p.stages) && from[to[j]] == j && recStepped(p, to[j], j)
+//@   label C15.tick.onto
+//@   ensures forall k in 0..len(p.stages) :: 0 <= from[k] && from[k] < old(len(p.stages)) && !em[from[k]] && to[from[k]] == k
+//@   label C15.tick.log
+//@   ensures forall q in old(c15PushN)..c15PushN :: 0 <= src[q] && src[q] < old(len(p.stages)) && em[src[q]] && lp[src[q]] == q
+//@   label C15.tick.logprefix
+//@   ensures forall q in 0..old(c15PushN) :: c15PushLog[q] == old(c15PushLog)[q]
+//@   label C15.tick.wf
+//@   ensures pipeWF(p)
+//@   label C15.tick.dwell
+//@   ensures old(dwellOK(p)) ==> dwellOK(p)
+//@   label C15.tick.progress.multi
+//@   ensures c15Room && old(dwellOK(p)) && p.numStages >= 2 ==> tickProgress(p, em, to)
+//@   label C15.tick.progress.single
+//@   ensures c15Room && old(dwellOK(p)) && p.numStages == 1 ==> tickProgress(p, em, to)
+//@   assigns p.stages, elems(p.stages), c15PushN, c15PushLog, c15CanPush
+//@   loop 0: ghost gem = emptyset
+//@   loop 0: ghost glp = idperm
+//@   loop 0: ghost gsrc = idperm
+//@   loop 0: ghost gto = idperm
+//@   loop 0: ghost gfrom = idperm
+//@   loop 0: backedge gem = (n < athead(n) ? upd(gem, gfrom[athead(i)], true) : gem)
+//@   loop 0: backedge glp = (n < athead(n) ? upd(glp, gfrom[athead(i)], athead(c15PushN)) : glp)
+//@   loop 0: backedge gsrc = (n < athead(n) ? upd(gsrc, athead(c15PushN), gfrom[athead(i)]) : gsrc)
+//@   loop 0: backedge gto = (n < athead(n) ? upd(gto, gfrom[athead(n) - 1], athead(i)) : gto)
+//@   loop 0: backedge gfrom = (n < athead(n) ? upd(gfrom, athead(i), gfrom[athead(n) - 1]) : gfrom)
+//@   loop 0: invariant -1 <= i && i < n && n <= len(p.stages) && advFrame(p) && lastStage == p.numStages - 1 && p.width == old(p.width) && p.numStages == old(p.numStages)
+//@   loop 0: invariant c15PushN >= old(c15PushN) && n + (c15PushN - old(c15PushN)) == len(p.stages)
+//@   loop 0: invariant forall k in 0..n :: 0 <= gfrom[k] && gfrom[k] < len(p.stages) && !gem[gfrom[k]] && gto[gfrom[k]] == k && recEq(p, k, gfrom[k])
+//@   loop 0: invariant forall j in 0..len(p.stages) :: !gem[j] ==> 0 <= gto[j] && gto[j] < n && gfrom[gto[j]] == j
+//@   loop 0: invariant forall j in 0..len(p.stages) :: gem[j] ==> old(c15PushN) <= glp[j] && glp[j] < c15PushN && c15PushLog[glp[j]] == old(p.stages)[j].Item && gsrc[glp[j]] == j && old(p.stages)[j].Stage == p.numStages - 1 && old(p.stages)[j].CycleLeft == 0
+//@   loop 0: invariant forall q in old(c15PushN)..c15PushN :: 0 <= gsrc[q] && gsrc[q] < len(p.stages) && gem[gsrc[q]] && glp[gsrc[q]] == q
+//@   loop 0: invariant forall q in 0..old(c15PushN) :: c15PushLog[q] == old(c15PushLog)[q]
+//@   loop 0: invariant c15Room ==> (forall k in i + 1..n :: !(p.stages[k].Stage == lastStage && p.stages[k].CycleLeft == 0))
